@@ -6,6 +6,12 @@ TECH = "deterministic simulation with fault injection"
 NOTE_COMMON = ("Trusted base: the go/ast instrumenter (tools/instrument) and the sim packages (sim/simrt, simsync, simfs, simclock, simexec, simwire) reproduce the semantics of the constructs they replace; "
                "the oracle/reference model written in sim/engine; Go toolchain go1.26.8. Seeded search: a clean batch is evidence, not proof. ")
 CHECKS = {
+ "C09": dict(level="exploration", design="5.9",
+   text="Claimed for the part that depends on histories and schedules: which files are searched and under which path each syntax tree is filed. Full-server simulation of histories (opens of root/included/unrelated documents, unsaved structured edits that add, remove and move occurrences and include lines, saves, closes, re-opens) under 7 schedule policies with and without workspace root; at quiescent points references (with/without declarations) and rename are asked from EVERY open document on positions drawn from the generator's occurrence table, and the returned (file, line, start column) set must equal the occurrence table over the governing tree (open buffers over disk). Rename must edit exactly those occurrences with the new name.",
+   note="NOT claimed: exactness of a range inside its line (end column) and cursor-to-symbol resolution on directives: pure functions of (text, position). Without a workspace, included files are kept saved and the requesting document is re-analysed by a no-op edit before it is asked, because the server then reads included files from disk by design."),
+ "C20": dict(level="exploration", design="5.20",
+   text="Claimed for the part that depends on histories and schedules: WHICH files are aggregated and HOW OFTEN. Same histories as C09; every document i posts 10^(i-1) W to the shared account agg:all exactly once, so the hover balance read as a decimal numeral is the multiset of files that were aggregated (conservation oracle: digit 1 exactly at the files of the governing tree, 2 = counted twice, 0 = left out); posting / transaction counts of the shared account, payee and tag must equal the number of files in the tree. Asked from every open document at quiescent points.",
+   note="NOT claimed: that decimal sums are exact in every number notation (pure). Same scoping of the no-workspace mode as C09."),
  "C17": dict(level="exploration", design="5.17",
    text="Claimed for the history-dependent part of the property. Full-server simulation with 1..3 open documents sharing the server's process-global token cache: seeded histories interleave edits, didClose/re-open and semanticTokens full / range / full/delta requests whose previousResultId is current, stale (including ids from before a close), another document's, garbage or empty. A client-side model keeps the array a client would hold and checks: the array rebuilt from delta answers equals a full result requested right afterwards; a range answer equals the full result restricted to the requested lines; a delta is only ever returned against the id the server issued last for that URI; ids are not reused; streams are decodable (multiple of 5, no wrapped fields, lines inside the text, types inside the advertised legend).",
    note="NOT claimed: that each token covers exactly its lexeme (pure function of the text); tokens that overlap or swallow the CR of a CRLF line end are counted as an unclaimed by-product in the evidence, never a verdict. The explicit range 0:0-0:0 (open C01 finding) is not generated so that the client's text model stays exact."),
